@@ -210,14 +210,14 @@ void HARNESS(void) { VIN(vin_t);
 
 AH = ['bounded: host[:port] texts of length <= N over all byte values', 'every allocation may fail (--malloc-may-fail)',
       'real bstr.c linked (trim, lower-case, dup, integer parser); memchr: textbook model (CBMC 6.11 has none)',
-      'on HTP_ERROR the out-parameters are not inspected (see notes/c13.md: *hostname is left dangling after a failed port allocation)']
+      'on HTP_ERROR the out-parameters are not inspected here (ownership on the error paths is the C18 units c18_uri_hostport / c18_header_hostport; the dangling *hostname seen there is fixed in /repo 342deba)']
 
 
 def hostport_unit(name, nq, nt, extra, bound, unwind, timeout=(600, 3000), **kw):
     d = {'N': nq, 'C13_MEMCHR_MODEL': 1}
     d.update(extra)
     UNITS.append(U(
-        name=name, props=['C13'], kind='bounded', src=['htp_util.c'], link=['bstr.c'], replay='vin',
+        name=name, props=['C13'] + (['C11'] if name == 'ref_parse_hostport_short' else []), kind='bounded', src=['htp_util.c'], link=['bstr.c'], replay='vin',
         contracts_inc=['uri_ref.h', 'c13_uri.h'], harness=HOSTPORT_H,
         defs={'quick': d, 'thorough': {'N': nt}},
         flags_add=['--unwind', str(unwind), '--unwinding-assertions', '--memory-leak-check'],
